@@ -153,6 +153,7 @@ type FuncCtx struct {
 	freshRefs map[string]bool
 	guardMode bool
 	recSelf   string
+	loopSpecs map[string]*LoopSpec
 	idxTerms  map[string]map[string]bool
 	cellPrefixes map[string]bool
 	havocArgTypes []string // pointee type keys of pointer arguments of the call being havocked
@@ -1243,4 +1244,21 @@ func (fc *FuncCtx) publish(st *State, t types.Type) {
 	case *types.Signature, *types.Struct, *types.Array:
 		st.private = nil
 	}
+}
+
+// elemIdx: absolute index off+i of a slice element. In the integer model it is written with an uninterpreted
+// function (defined by an axiom) so that quantified facts about elements can be matched syntactically.
+func (fc *FuncCtx) elemIdx(off, i string) string {
+	if fc.model != "int" {
+		return fc.iadd(off, i)
+	}
+	if off == "0" {
+		return i
+	}
+	if !fc.u.declared["elemidx"] {
+		fc.u.declared["elemidx"] = true
+		fc.u.emit("(declare-fun elemidx (Int Int) Int)")
+		fc.u.emit("(assert (forall ((o Int) (i Int)) (! (= (elemidx o i) (+ o i)) :pattern ((elemidx o i)))))")
+	}
+	return "(elemidx " + off + " " + i + ")"
 }
